@@ -1,6 +1,6 @@
 """C05 - decoded data re-encodes to a valid, equivalent document; strict encode is sound.
 
-Part (a), round trip.  For every schema template of mc/gen/docs_c05.py (29 templates from a small grammar),
+Part (a), round trip.  For every schema template of mc/gen/docs_c05.py (33 templates from a small grammar),
 every valid instance = every word of length <= 4 of each content model (reference DFA of mc/ref/regex.py) x
 mixed-text pattern x leaf / attribute values from a 3-value catalogue (value deviations <= 2), for every
 converter class and every option set (option deviations <= 1 quick, <= 2 thorough):
@@ -10,7 +10,9 @@ converter class and every option set (option deviations <= 1 quick, <= 2 thoroug
 the serialised `elem` must be valid, structurally equal to the instance (tags, attribute sets, typed values
 compared in value space by plain Python, character data of mixed content) and decode to the same data again.
 JsonML and DataElement are judged on everything; the default / BadgerFish / GData conventions are judged on
-instances all of whose content models have contiguous same-named children (decided on the reference automaton)
+instances all of whose content models have contiguous same-named children (decided on the reference automaton;
+also when the child word of every element is the only word of its model with the same names in first-occurrence
+order and the same counts, which is all a keyed dict retains - e.g. `iiit` of `(i, n?)*, t`)
 and that have no character data strictly between two children (the default converter, which by documented
 design drops character data unless cdata_prefix is set, only on instances without mixed character data);
 Unordered, Parker, Abdera and Columnar are explored and counted only.
@@ -36,9 +38,9 @@ from mc.gen import docs_c05 as G
 
 ID = 'C05'
 TITLE = 'Decoded data re-encodes to a valid, equivalent document; strict encode is sound'
-RULE = ('29 schema templates (nested complex types, attributes, simple content + attributes, mixed content, list-typed '
+RULE = ('33 schema templates (nested complex types, attributes, simple content + attributes, mixed content, list-typed '
         'leaves and attributes incl. empty lists, qualified / unqualified / two-namespace / no-namespace, contiguous and '
-        'non-contiguous repeated children, repeated groups, nillable / optional leaves, choice, all-group, empty content) x every word of '
+        'non-contiguous repeated children, repeated groups, nillable / optional leaves, choice, all-group, empty content, simple content over list types, facet-restricted list / string types as element, simple content and attribute types) x every word of '
         'length <= 4 of every content model (all occurrences of one type share a word; <= 12 elements) x mixed-text '
         'pattern {none, head, tail, between, all} x value deviations <= 2 over the slots (leaf text, attribute, '
         'xsi:nil) x 9 converters x option sets over {preserve_root, force_list, force_dict, decimal_type=float|str, '
@@ -53,7 +55,10 @@ ASSUMPTIONS = [
     'character data of mixed content is compared after stripping the indentation the encoder may add; '
     'whitespace-only text in element-only content is ignored',
     'keyed-dict conventions (default, BadgerFish, GData) are judged only on instances whose content models all have '
-    'contiguous same-named children and no character data strictly between two children; the default converter '
+    'contiguous same-named children (or, wider, whose child words are each the only word of their model with the same '
+    'names in first-occurrence order and the same counts: the keyed data then denotes exactly one valid document; no '
+    'discrepancy of this wider class exists on the unchanged tree) and no character data strictly between two children; '
+    'the default converter '
     'without cdata_prefix only on instances without mixed character data (it drops it by documented design)',
     'Unordered, Parker, Abdera and Columnar converters are lossy by design: round trips explored and counted, never '
     'judged; encoder soundness (b) is judged for all nine converters',
@@ -151,7 +156,9 @@ class Inst:
         words, pats = G.parse_skel_key(skel)
         self.words = words
         self.root = G.build_instance(ctx.tpl, ctx.decls, skel, dev)
-        self.contig = all(ctx.decls.contig[c] for c in words)
+        # keyed conventions: every model contiguous, or (wider) the child word of every element is the only word of
+        # its model with the same names in first-occurrence order and the same counts (all a keyed dict retains)
+        self.contig = all(ctx.decls.contig[c] or words[c] in ctx.decls.unique[c] for c in words)
         self.between = G.has_between_text(self.root)
         self.anytext = has_text(self.root)
         self._xml = {}
